@@ -139,14 +139,22 @@ def rule_guard_shape(P, which=("binarize", "_push_null_weights", "unaryremove", 
                 shape = "fresh preterminal → its terminal"
             elif len(st) == 1 and not ex:
                 s = st[0]
+                if isinstance(s, ast.Name):
+                    # a body built one statement earlier: `lifted = [.. for y in r.body]; new.add(.., *lifted)`
+                    v = W.single_def(f.node, s.id)
+                    if isinstance(v, ast.Call) and W.call_name(v) in ("list", "tuple") and len(v.args) == 1:
+                        v = v.args[0]
+                    if isinstance(v, (ast.GeneratorExp, ast.ListComp)):
+                        s = v
                 b = norm(s)
-                lo, hi = W.len_bounds(facts, b) if not isinstance(s, ast.GeneratorExp) else (None, None)
+                lo, hi = W.len_bounds(facts, b) if not isinstance(s, (ast.GeneratorExp, ast.ListComp)) else (None, None)
                 if isinstance(s, (ast.GeneratorExp, ast.ListComp)):
                     g = s.generators[0]
                     y = g.target.id if isinstance(g.target, ast.Name) else None
-                    e = s.elt
+                    e = W.canon_ast(f.node, s.elt, c) if len(s.generators) == 1 and not g.ifs and norm(g.iter).endswith(".body") else s.elt
                     ok = isinstance(e, ast.IfExp) and norm(e.test) == f"self.is_terminal({y})" and W.is_name(e.orelse, y) \
-                        and isinstance(e.body, ast.Attribute) and e.body.attr == "head" and isinstance(e.body.value, ast.Call)
+                        and isinstance(e.body, ast.Attribute) and e.body.attr == "head" and isinstance(e.body.value, ast.Call) \
+                        and len(s.generators) == 1 and not g.ifs and norm(g.iter).endswith(".body")
                     shape = "every terminal replaced by a preterminal head"
                 else:
                     ok = lo == 1 and hi == 1 and _pos_fact(facts, f"self.is_terminal({b}[0])")
@@ -156,7 +164,7 @@ def rule_guard_shape(P, which=("binarize", "_push_null_weights", "unaryremove", 
             if not ok and shape == "?":
                 r.undecided(f, c, f"`{first_line(c)}`: shape of the emitted body not recognised", construct=f"separate_terminals: {first_line(c)}")
                 continue
-            if not ok and len(st) == 1 and not ex and not isinstance(st[0], (ast.GeneratorExp, ast.ListComp)) and lo is None:
+            if not ok and len(st) == 1 and not ex and not isinstance(s, (ast.GeneratorExp, ast.ListComp)) and lo is None:
                 r.undecided(f, c, f"`{first_line(c)}`: the emitted body `*{norm(st[0])}` is built elsewhere", construct=f"separate_terminals: {first_line(c)}")
                 continue
             r.add(f, c, ok, "" if ok else f"`{first_line(c)}` can leave a terminal inside a longer right-hand side / emit a "
@@ -254,6 +262,24 @@ def rule_guard_ucycle(P):
         if isinstance(n, ast.Assign) and isinstance(n.targets[0], ast.Name) and norm(n.value) == f"{gname}.buckets":
             bk = n.targets[0].id
     if bk is None:
+        # positive evidence of the classic slip: "head and body both lie on *some* cycle" (two membership tests in one set that
+        # accumulates several components) instead of "in the same component"
+        for n in walk_live(f.node):
+            if isinstance(n, ast.BoolOp) and isinstance(n.op, ast.And):
+                ins = [v for v in n.values if isinstance(v, ast.Compare) and len(v.ops) == 1 and isinstance(v.ops[0], ast.In)
+                       and isinstance(v.comparators[0], ast.Name)]
+                sets = {v.comparators[0].id for v in ins}
+                sides = {norm(v.left).rsplit(".", 1)[-1].split("[")[0] for v in ins}
+                if len(ins) == 2 and len(sets) == 1 and sides == {"head", "body"}:
+                    sname = next(iter(sets))
+                    grown_in_loop = any(isinstance(c, ast.Call) and isinstance(c.func, ast.Attribute) and c.func.attr in ("add", "update")
+                                        and W.is_name(c.func.value, sname) and any(isinstance(a, ast.For) and "Blocks" in norm(a.iter) for a in ancestors(c))
+                                        for c in walk_live(f.node))
+                    if grown_in_loop:
+                        r.add(f, n, False, f"`{norm(n)}` skips a unary rule when head and body each lie on *some* cycle: `{sname}` collects the nodes "
+                              f"of every cyclic component, so a unary rule linking two different cyclic components is dropped although no block "
+                              f"closure covers it (weight is lost)", construct="unarycycleremove: which unary rules the closure replaces")
+                        return r
         raise AnalysisError("cfg.py::CFG.unarycycleremove: SCC bucket map not found")
     for c in acyc:
         facts = W.cguard_facts(f.node, c)
